@@ -101,7 +101,7 @@ def gen_atom(rng, var, cls, world):
     t = ["path", var, path]
     r = rng.random()
     if typ == "nfloat":
-        return ["cmp", "==", t, ["lit", rng.choice([None, 0.0, 1.0, 2.5])]] if r < 0.8 else ["in", t, ["lit", [0.0, 2.5]]]
+        return ["cmp", rng.choice(["==", "==", "!="]), t, ["lit", rng.choice([None, 0.0, 1.0, 2.5])]] if r < 0.8 else ["in", t, ["lit", [0.0, 2.5]]]
     if typ == "str":
         if r < 0.5:
             return ["cmp", rng.choice(["==", "!="]), t, ["lit", rng.choice(["ab", "abc", "b", ""])]]
@@ -131,7 +131,8 @@ def gen_cond(rng, var, cls, world, depth):
 def gen(rng, tier, ctx):
     world = gen_world(rng)
     kind = rng.choices(["single", "single", "single", "join_rel", "join_scalar_diff", "join_scalar_same", "join_rel_same",
-                        "membership_rel", "var_eq_rel", "reject"], [30, 20, 10, 8, 6, 4, 3, 3, 3, 6])[0]
+                        "membership_rel", "var_eq_rel", "reject", "join_in_or", "join_twice", "value_var"],
+                       [30, 20, 10, 8, 6, 4, 3, 3, 3, 6, 3, 3, 3])[0]
     cls = rng.choice(["Leaf", "Holder", "SubHolder", "Tag", "Top", "Top"])
     q = {"kind": kind, "quant": "the" if rng.random() < 0.12 else "an", "root": cls, "vars": {"x": cls}}
     if kind == "single":
@@ -153,6 +154,22 @@ def gen(rng, tier, ctx):
     elif kind == "join_rel_same":
         q["root"], q["vars"] = "Holder", {"x": "Holder", "y": "Holder"}
         q["cond"] = ["cmp", "==", ["path", "x", "leaf"], ["path", "y", "other"]]
+    elif kind == "join_in_or":
+        # an attribute-equality join as an operand of a disjunction
+        q["root"], q["vars"] = "Holder", {"x": "Holder", "y": "Tag"}
+        j = ["cmp", "==", ["path", "x", "leaf"], ["path", "y", "leaf"]]
+        a = gen_atom(rng, "x", "Holder", world)
+        q["cond"] = ["or", j, a] if rng.random() < 0.5 else ["or", a, j]
+    elif kind == "join_twice":
+        # two join conditions between the same two classes
+        q["root"], q["vars"] = "Holder", {"x": "Holder", "y": "Tag"}
+        q["cond"] = ["and", ["cmp", "==", ["path", "x", "leaf"], ["path", "y", "leaf"]],
+                     ["cmp", "==", ["path", "x", "other"], ["path", "y", "leaf"]]]
+    elif kind == "value_var":
+        # a variable over plain values compared with an attribute
+        q["root"], q["vars"] = "Leaf", {"x": "Leaf"}
+        q["value_var"] = sorted(rng.sample(range(5), rng.choice([1, 2, 3])))
+        q["cond"] = ["cmp", rng.choice(["==", "<=", "!="]), ["path", "x", "n"], ["path", "k", None]]
     elif kind == "membership_rel":
         q["root"], q["vars"] = "Holder", {"x": "Holder"}
         q["cond"] = ["contains", ["path", "x", "many"], ["obj", "leaves", rng.randrange(len(world["leaves"]))]]
@@ -209,6 +226,8 @@ def build_query(q, objs, sm):
     OPS = {"==": operator.eq, "!=": operator.ne, "<": operator.lt, "<=": operator.le, ">": operator.gt, ">=": operator.ge}
     doms = {"Leaf": objs["leaves"], "Holder": objs["holders"], "SubHolder": objs["holders"], "Tag": objs["tags"], "Top": objs["tops"]}
     V = {name: E.let(getattr(sm, cls), list(doms[cls]), name=name) for name, cls in q["vars"].items()}
+    if q.get("value_var") is not None:
+        V["k"] = E.let(int, list(q["value_var"]), name="k")
 
     def bt(t):
         if t[0] == "lit":
@@ -319,6 +338,8 @@ def run(case, ctx):
         key_hint = {"join_scalar_same": "cross-variable-scalar-comparison-same-class",
                     "join_rel_same": "same-class-relationship-join-unaliased",
                     "membership_rel": "entity-operand-bound-as-parameter",
+                    "join_in_or": "join-inside-disjunction", "join_twice": "second-join-condition-dropped",
+                    "value_var": "value-variable-first-value-only",
                     "var_eq_rel": "entity-operand-bound-as-parameter"}.get(q["kind"])
         with Session(eng) as s2:
             try:
